@@ -64,10 +64,35 @@ def ident(x):
     return x
 
 
+class NotForTheseInputs(Exception):
+    """Raised by helpers that are only defined for some inputs (not one of the built-in exception families)."""
+
+
+def only_for_small(x):
+    if x > 50:
+        raise NotForTheseInputs("only defined up to 50, got {}".format(x))
+    return x
+
+
+def needs_runtime(x):
+    if x > 50:
+        raise RuntimeError("not available for {}".format(x))
+    return x
+
+
+def needs_file(x):
+    if x > 50:
+        raise OSError("no such thing: {}".format(x))
+    return x
+
+
 G_INT = 7
 G_LIST = [3, 1, 2]
 G_STR = "glob"
 G_NONE = None
+# (values whose configured representation differs from repr(): keys not in sorted order, more items than the repr shows)
+G_RECORDS = [{"ok": 5, "id": 1}, {"ok": -3, "id": 7, "bad": 0}, {"ok": 2, "id": 3}]
+G_ROWS = [[1, 2], list(range(60)), [3]]
 c1 = 99  # a global with the name of the closure variable of the conditions: the closure must win
 '''
 
@@ -288,7 +313,7 @@ class Gen:
         if d >= self.max_depth:
             return "{} {} {}".format(self.int_leaf(), rng.choice(["<", "<=", ">", ">=", "==", "!="]), self.int_leaf())
         opts = ["cmp", "cmp", "chain", "and", "or", "not", "in_dict", "in_list", "all", "any", "strcmp", "isinst", "truth", "container_eq",
-                "all_value"]
+                "all_value", "builtin_const"]
         if self.env.with_none:
             opts += ["none_guard", "is_none"]
         if rng.random() < self.guarded_bias:
@@ -296,6 +321,11 @@ class Gen:
         k = rng.choice(opts)
         if k == "cmp":
             return "{} {} {}".format(self.int_expr(d + 1), rng.choice(["<", "<=", ">", ">=", "==", "!="]), self.int_expr(d + 1))
+        if k == "builtin_const":
+            # built-ins which are values (neither functions nor classes): names of the builtins module all the same
+            return rng.choice(["({i} is not NotImplemented and {b})", "({xs} is not Ellipsis and {b})", "((__debug__ or not __debug__) and {b})",
+                               "({i} != NotImplemented and {b})", "({xs} is Ellipsis or {b})"]).format(
+                                   i=self.int_expr(d + 1), xs=self.list_expr(d + 1), b=self.bool_expr(d + 1))
         if k == "chain":
             ops = [rng.choice(["<", "<=", ">", ">=", "==", "!="]) for _ in range(rng.randint(2, 3))]
             parts = [self.int_expr(d + 1)]
@@ -345,7 +375,23 @@ class Gen:
     def all_expr(self, d: int) -> str:
         rng = self.rng
         k = rng.choice(["one", "filter", "two", "attr", "truthy", "truthy_get", "guard_inside", "guard_inside2", "star_inside", "dstar_inside",
-                        "star_comp_in_iter", "dependent_filters", "dependent_filters2", "filters_two_fors", "never_evaluated_dup_kw"])
+                        "star_comp_in_iter", "dependent_filters", "dependent_filters2", "filters_two_fors", "never_evaluated_dup_kw",
+                        "records", "rows", "never_evaluated_raises"])
+        if k == "never_evaluated_raises":
+            # a part of the comprehension that Python never evaluates for these inputs (no item passes the filter / empty
+            # iterable) and that raises an exception of its own when evaluated out of context
+            helper = rng.choice(["only_for_small", "needs_runtime", "needs_file"])
+            return rng.choice([
+                "all(x > {h}(100 + {i}) for x in {xs} if x > 1000)",
+                "all({h}(x + 100) for x in {xs} if x > 1000)",
+                "all(x > {i} for x in {xs} if x > 1000 if {h}(x) > 0)",
+                "all(x + y > {i} for x in [] for y in [{h}(99), {h}(100)])",
+            ]).format(h=helper, i=self.int_leaf(), xs=self.list_expr(d + 1))
+        if k == "records":
+            # counter-examples whose configured representation is not their repr()
+            return "all(r['ok'] > {} for r in G_RECORDS)".format(self.int_leaf())
+        if k == "rows":
+            return "all(row[-1] < {} for row in G_ROWS)".format(rng.choice([5, 10, 50]))
         if k == "never_evaluated_dup_kw" and self.has("star"):
             # a part of the comprehension that Python never evaluates for these inputs (no item passes the filter) and that would
             # raise if it did whenever the dictionary repeats the explicit keyword: nothing may be reported for it
